@@ -312,7 +312,11 @@ func scheduleSummary(t *Trial) string {
 				}
 			}
 		}
-		fmt.Fprintf(&sb, "  run %d: threads=%d NumCPU=%d map-order-mode=%d read-chunk-mode=%d, %d decisions", i, rc.Threads, rc.NumCPU, rc.MapMode, rc.Chunk, len(rc.Replay))
+		cpus := fmt.Sprint(rc.NumCPU)
+		if rc.MaxProcs > 0 {
+			cpus += fmt.Sprintf(" GOMAXPROCS=%d", rc.MaxProcs)
+		}
+		fmt.Fprintf(&sb, "  run %d: threads=%d NumCPU=%s map-order-mode=%d read-chunk-mode=%d, %d decisions", i, rc.Threads, cpus, rc.MapMode, rc.Chunk, len(rc.Replay))
 		if nz == 0 {
 			sb.WriteString(", all baseline (fails under the run-to-block schedule)")
 		} else {
@@ -675,7 +679,7 @@ func master(args []string) {
 
 var exhaustiveNote = map[string]string{}
 
-const realVsStub = "real, unmodified logic: every function body of gofasta's pkg/** and cmd/** (parsers, CIGAR walk, flattening, distances, catchments, writers), biogo/hts/sam, encoding/csv, bufio; replaced by simulator primitives of identical semantics: channels, select, go statements, sync.WaitGroup, map range order, runtime.NumCPU/GOMAXPROCS, os.Stdout/Stderr/Stdin/Create/Open/MkdirAll and *os.File; stubbed: process exit (error => status 1 is assumed from cmd/root.go); not exercised: real file descriptors, the OS and Go runtime schedulers"
+const realVsStub = "real, unmodified logic: every function body of gofasta's pkg/** and cmd/** (parsers, CIGAR walk, flattening, distances, catchments, writers), biogo/hts/sam, encoding/csv, bufio; replaced by simulator primitives of identical semantics: channels, select, go statements, sync.WaitGroup/Mutex/RWMutex/Once/Pool and sync/atomic (where a change introduces them), map range order, runtime.NumCPU/GOMAXPROCS, os.Stdout/Stderr/Stdin/Create/Open/OpenFile/MkdirAll, *os.File and fmt.Print*; process memory: package-level variables of pkg/** are re-initialised and pools emptied at the start of every run (a run stands for one cold process); stubbed: process exit (error => status 1 is assumed from cmd/root.go); not exercised: real file descriptors, the OS and Go runtime schedulers"
 
 func copyFile(src, dst string) {
 	b, err := os.ReadFile(src)
